@@ -548,6 +548,15 @@ fn run_job(scen: &Value, names: &[String], job: &Value, budget: usize, want_ops:
     let mut ops: Vec<Value> = vec![];
     let mut ords: BTreeMap<String, String> = BTreeMap::new();
     let mut choices_taken: Vec<String> = vec![];
+    // systematic exploration support (preemption-bounded search driven by checks/grpa.py): the enabled set before every step
+    let trace_en = job.get("trace_enabled").and_then(|x| x.as_bool()).unwrap_or(false);
+    let sticky = job.get("tail").and_then(|x| x.as_str()) == Some("sticky");
+    let mut en_trace: Vec<Vec<String>> = vec![];
+    // spin detection for the systematic search: a thread whose last step repeated its previous observation (same load / failed
+    // compare-exchange / failed try-lock on the same cell with the same result, no write to that cell in between) is waiting;
+    // scheduling it again is a stutter step, so it is left out of the choice set while another thread can run
+    let mut last_obs: Vec<Option<(OpKind, usize, u64, bool)>> = vec![None; n];
+    let mut spinning: Vec<bool> = vec![false; n];
     let mut nsteps = 0usize;
     let mut drift: Option<Value> = None;
     let mut diverged = false;
@@ -572,9 +581,44 @@ fn run_job(scen: &Value, names: &[String], job: &Value, budget: usize, want_ops:
     macro_rules! do_grant {
         ($t:expr) => {{
             let t: usize = $t;
+            if trace_en {
+                let en = sched.enabled();
+                let awake: Vec<usize> = en.iter().cloned().filter(|x| !spinning[*x]).collect();
+                en_trace.push((if awake.is_empty() { en } else { awake }).into_iter().map(|x| names[x].clone()).collect());
+            }
             let (pend, dones) = sched.grant(t);
             nsteps += 1;
             choices_taken.push(names[t].clone());
+            for d in &dones {
+                let passive = match d.op.kind {
+                    OpKind::Load => true,
+                    OpKind::CasWeak | OpKind::CasStrong | OpKind::TryLock | OpKind::TryRLock | OpKind::TryWLock => !d.ok,
+                    _ => false,
+                };
+                if passive {
+                    let o = Some((d.op.kind, d.op.addr, d.val, d.ok));
+                    spinning[t] = last_obs[t] == o;
+                    last_obs[t] = o;
+                } else {
+                    spinning[t] = false;
+                    last_obs[t] = None;
+                    // a write (or a lock transition) on a cell wakes up whoever is waiting on it
+                    for u in 0..n {
+                        if u != t {
+                            if let Some((_, a, _, _)) = last_obs[u] {
+                                if a == d.op.addr {
+                                    spinning[u] = false;
+                                    last_obs[u] = None;
+                                }
+                            }
+                        }
+                    }
+                }
+            }
+            if dones.is_empty() {
+                spinning[t] = false;
+                last_obs[t] = None;
+            }
             let mut desc = String::from("CallStart");
             if let Pend::Op(_) = pend {
                 for d in &dones {
@@ -765,7 +809,16 @@ fn run_job(scen: &Value, names: &[String], job: &Value, budget: usize, want_ops:
             break;
         }
         rr += 1;
-        do_grant!(en[rr % en.len()]);
+        if sticky {
+            // non-preemptive tail: stay on the thread that ran last while it can run, else the first enabled one
+            let last = choices_taken.last().and_then(|l| names.iter().position(|x| x == l));
+            let awake: Vec<usize> = en.iter().cloned().filter(|x| !spinning[*x]).collect();
+            let pool = if awake.is_empty() { en.clone() } else { awake };
+            let t = match last { Some(l) if pool.contains(&l) => l, _ => pool[rr % pool.len()] };
+            do_grant!(t);
+        } else {
+            do_grant!(en[rr % en.len()]);
+        }
     }
     let calls = sched.take_calls();
     let panics: Vec<Value> = sched.panics().into_iter().enumerate().filter_map(|(t, p)| p.map(|m| json!({"t": names[t], "msg": m}))).collect();
@@ -801,6 +854,9 @@ fn run_job(scen: &Value, names: &[String], job: &Value, budget: usize, want_ops:
     out.insert("calls".into(), Value::Array(calls));
     out.insert("ords".into(), json!(ords));
     out.insert("choices".into(), json!(choices_taken));
+    if trace_en {
+        out.insert("enabled".into(), json!(en_trace));
+    }
     if want_ops {
         out.insert("ops".into(), Value::Array(ops));
     }
